@@ -26,7 +26,7 @@ theorem getId_hit {cfg : Cfg} {db db' : Db} {req : Req} {now id : Nat} {ch : Get
     cases hb with
     | hit r hrt hd hf hid hdb =>
       subst hdb
-      have hl : (db.ids req.space).lookup id = some r := by
+      have hl : (db.ids req.space).lookup ch.pick = some r := by
         rw [← hid]; exact lookup_of_mem (hinv.keys _ hs) hrt
       refine ⟨⟨r, ⟨hrt, member_of_row hinv hs hu hrt hf⟩, hd, hid⟩, ?_, ?_⟩
       · intro id' hne
@@ -34,7 +34,7 @@ theorem getId_hit {cfg : Cfg} {db db' : Db} {req : Req} {now id : Nat} {ch : Get
         cases hl' : (db.ids req.space).lookup id' with
         | none => rfl
         | some r' =>
-          have : r'.id ≠ id := by rw [(lookup_eq_some hl').2]; exact hne
+          have : r'.id ≠ ch.pick := by rw [(lookup_eq_some hl').2]; exact hne
           simp [this]
       · rw [ids_setIds_same, lookup_setAtime, hl]
         simp only [Option.map_some, hid, ↓reduceIte]
@@ -73,7 +73,7 @@ theorem getId_binds {cfg : Cfg} {db db' : Db} {req : Req} {now id : Nat} {ch : G
   | block hb =>
     cases hb with
     | hit => exact (getId_hit hr hs hu h).2.2
-    | recycled v hmiss henum hv hid hold hset =>
+    | recycled v hmiss henum hv hid hold hwhy hset =>
       rw [setId_of_inSpace hs (inSpace_of_member hm) hset, ids_setIds_same, lookup_upsert]; simp
     | fresh hmiss henum hcount hall hfree hset =>
       rw [setId_of_inSpace hs (inSpace_of_member hm) hset, ids_setIds_same, lookup_upsert]; simp
@@ -93,7 +93,7 @@ theorem nothing_outside_subspace_changes {cfg : Cfg} {db db' : Db} {req : Req} {
     have hm := C01.getId_member_of_inv hinv hs hu h
     cases hb with
     | hit r hrt hd hf hid hdb => subst hdb; exact frame_setAtime db hs hm
-    | recycled v hmiss henum hv hid hold hset =>
+    | recycled v hmiss henum hv hid hold hwhy hset =>
       rw [setId_of_inSpace hs (inSpace_of_member hm) hset]; exact frame_upsert db hs hm
     | fresh hmiss henum hcount hall hfree hset =>
       rw [setId_of_inSpace hs (inSpace_of_member hm) hset]; exact frame_upsert db hs hm
@@ -135,45 +135,33 @@ theorem getId_free_no_displacement {cfg : Cfg} {db db' : Db} {req : Req} {now id
 
 /-- while an enumerable subspace has a free id, a new description displaces nothing: the outcome of a
     miss is `fresh` -/
-theorem getId_enumerable_not_full {cfg : Cfg} {db db' : Db} {req : Req} {now id : Nat} {ch : GetChoice} {out : Outcome}
+theorem getId_enumerable_not_full {cfg : Cfg} {db db' : Db} {req : Req} {now : Nat} {ch : GetChoice}
+    {res : GetRes} {out : Outcome}
     (henum : isEnumerable cfg req.space req.sub = true)
     (hmiss : (db.ids req.space).byDesc req.space req.sub req.desc = [])
     (hfree : ∃ i ∈ req.space.allIds req.sub, ∀ r ∈ (db.ids req.space).inSub req.space req.sub, r.id ≠ i)
     (hcount : ((db.ids req.space).inSub req.space req.sub).length < req.space.subspaceSize req.sub)
-    (h : getId cfg db req now ch = .ok (db', .id id, out)) : out = .fresh := by
-  unfold getId lookupBlock at h
-  obtain ⟨i, hi, hfi⟩ := hfree
-  have hne : ¬ (req.space.allIds req.sub).filter
-      (fun i => !((db.ids req.space).inSub req.space req.sub).any (fun r => r.id == i)) = [] := by
-    intro e
-    have : i ∈ (req.space.allIds req.sub).filter
-        (fun i => !((db.ids req.space).inSub req.space req.sub).any (fun r => r.id == i)) := by
-      refine List.mem_filter.2 ⟨hi, ?_⟩
-      simp only [Bool.not_eq_true', List.any_eq_false, beq_iff_eq]
-      exact hfi
-    rw [e] at this; cases this
-  simp only [hmiss, List.isEmpty_nil, Bool.not_true, Bool.false_eq_true, ↓reduceIte, henum,
-    Nat.not_le.2 hcount, ge_iff_le] at h
-  split at h
-  · cases h
-  · next hl =>
-    split at hl
-    · cases hl
-    · simp only [List.isEmpty_iff, hne, Bool.not_false, ↓reduceIte] at hl
-      split at hl
-      · split at hl
-        · injection hl with hl; injection hl with h1 h2; injection h2 with h2 h3
-          injection h with h; injection h with _ h4; injection h4 with _ h5
-          rw [← h5, ← h3]
-        · cases hl
-      · cases hl
-  · next hl =>
-    split at hl
-    · cases hl
-    · simp only [List.isEmpty_iff, hne, Bool.not_false, ↓reduceIte] at hl
-      split at hl
-      · split at hl <;> cases hl
-      · cases hl
+    (h : getId cfg db req now ch = .ok (db', res, out)) : out = .fresh := by
+  cases getId_spec h with
+  | block hb =>
+    cases hb with
+    | hit r hrt hd hf hid hdb =>
+      have : r ∈ (db.ids req.space).byDesc req.space req.sub req.desc := by
+        unfold Table.byDesc; exact List.mem_filter.2 ⟨hrt, by simp [hd, hf]⟩
+      rw [hmiss] at this; cases this
+    | recycled v hmiss' henum' hv hid hold hwhy hset =>
+      rcases hwhy with hge | hnone
+      · omega
+      · obtain ⟨i, hi, hfi⟩ := hfree
+        have : i ∈ (req.space.allIds req.sub).filter
+            (fun i => !((db.ids req.space).inSub req.space req.sub).any (fun r => r.id == i)) := by
+          refine List.mem_filter.2 ⟨hi, ?_⟩
+          simp only [Bool.not_eq_true', List.any_eq_false, beq_iff_eq]
+          exact hfi
+        rw [hnone] at this; cases this
+    | fresh => rfl
+  | sampled _ henum' => rw [henum] at henum'; cases henum'
+  | exhausted _ henum' => rw [henum] at henum'; cases henum'
 
 /-- **LRU.** If the allocator recycled an id (only possible in an enumerable subspace, i.e. at most
     1024 ids and at most the configured maximum), exactly one old assignment was dropped, it was least
@@ -189,7 +177,7 @@ theorem getId_full_enumerable_drops_exactly_lru {cfg : Cfg} {db db' : Db} {req :
   cases getId_spec h with
   | block hb =>
     cases hb with
-    | recycled v hmiss henum hv hid hold hset =>
+    | recycled v hmiss henum hv hid hold hwhy hset =>
       obtain ⟨hvt, hvf⟩ := mem_inSub.1 hv
       refine ⟨by simpa [isEnumerable] using henum, ⟨⟨hvt, member_of_row hinv hs hu hvt hvf⟩, ?_⟩, hid, ?_, ?_⟩
       · intro r' hr'
@@ -198,7 +186,7 @@ theorem getId_full_enumerable_drops_exactly_lru {cfg : Cfg} {db db' : Db} {req :
         have e1 := lookup_of_mem (hinv.keys _ hs) hvt
         have e2 := lookup_of_mem (hinv.keys _ hs) hv''
         rw [hid] at e1; rw [hid'] at e2
-        have : v = v' := by rw [e1] at e2; injection e2
+        have : victim = v' := by rw [e1] at e2; injection e2
         subst this
         exact hmin r' ((live_iff_inSub hinv hs hu r').1 hr')
       · intro id' hne
@@ -236,11 +224,13 @@ theorem getId_large_drops_only_by_cleanup {cfg : Cfg} {db db' : Db} {req : Req} 
   have hinv := C01.reachable_inv hr
   have hm := C01.getId_member_of_inv hinv hs hu h
   cases getId_spec h with
+  | block hb => cases hb
   | sampled hmiss henum hcl hmem hfree hset =>
-    refine ⟨_, hcl, ?_, ?_, ?_⟩
+    rename_i db1
+    refine ⟨db1, hcl, ?_, ?_, ?_⟩
     · rw [lookup_eq_none]
       intro r hrt hid
-      have : (Table.hasId (Db.ids _ req.space) id) = true := by
+      have : (db1.ids req.space).hasId id = true := by
         unfold Table.hasId; exact List.any_eq_true.2 ⟨r, hrt, by simpa using hid⟩
       rw [hfree] at this; cases this
     · intro id' hne
